@@ -91,15 +91,8 @@ def run_one(srv_asan, plain_exe, part, text, stratum, npop, style):
             try:
                 import time
                 t0 = time.time()
-                plines = p.case("n=%d style=%s budget=%d" % (npop, style, b_plain), text)
+                p.case("n=%d style=%s budget=%d" % (npop, style, b_plain), text)
                 dt = time.time() - t0
-                if dt >= 5.0 and not stratum.endswith("exrule-dense") and not any(l.startswith("O ") and l != "O -" for l in plines):
-                    # seconds of CPU on the uninstrumented build for the answer "there is nothing (more)": for the
-                    # single-threaded daemon that is a stall, whatever the loop count behind it
-                    part.violation(sig + "/stall-before-end-of-stream",
-                                   {"input": text, "n": npop, "style": style,
-                                    "summary": "%.1f s on the plain build to report the end of a stream that delivers nothing" % dt})
-                    return
                 part.count("second_opinions_" + ("under_1s" if dt < 1 else "1_to_3s" if dt < 3 else "3_to_6s" if dt < 6 else "over_6s"))
                 if dt >= 3:
                     part.sample({"slow_on_plain_build_s": round(dt, 1), "event": text.split("\n")[4:8], "n": npop}, cap=6)
